@@ -49,6 +49,29 @@ Proof.
   - rewrite D, P. reflexivity.
 Qed.
 
+(* attached funds never lower the receiver's balance *)
+Lemma pay_esdts_mono ps : forall l from to l1 tok, from <> to ->
+  pay_esdts l from to ps = Some l1 -> bal l to tok <= bal l1 to tok.
+Proof.
+  induction ps as [|p r IH]; intros l from to l1 tok Hne E; cbn [pay_esdts] in E.
+  - inversion E; subst. lia.
+  - destruct (transfer l from to (ep_token p) (ep_amount p)) as [l2|] eqn:T; [|discriminate].
+    apply IH with (tok := tok) in E; [|exact Hne].
+    apply transfer_spec in T as (_ & _ & B & O); [|exact Hne].
+    destruct (bytes_dec tok (ep_token p)) as [->|ne].
+    + lia.
+    + rewrite O in E; [exact E | congruence | congruence].
+Qed.
+
+Lemma pay_in_mono l from to v l1 tok : from <> to -> pay_in l from to v = Some l1 -> bal l to tok <= bal l1 to tok.
+Proof.
+  intros Hne. unfold pay_in. destruct (cv_esdt v) as [|p r] eqn:E.
+  - intro T. apply transfer_spec in T as (_ & _ & B & O); [|exact Hne].
+    destruct (bytes_dec tok EGLD) as [->|ne]; [lia|]. rewrite O; [lia | congruence | congruence].
+  - destruct (cv_egld v =? 0); [|discriminate]. apply pay_esdts_mono. exact Hne.
+Qed.
+
+
 (* ---------- service only ---------- *)
 Theorem give_only_service t l c d a : t_caller c <> tm_service t -> give_token t l c d a = None.
 Proof.
